@@ -1,5 +1,9 @@
-(* C09 — placeholder until the engine theorems are added below. *)
-From WF Require Import model.Base model.EngineBase model.Engine.
-Theorem C09_emit_dead_silent : forall t s, o_dead s = true -> emit t s = (Ok tt, s).
-Proof. intros t s H. unfold emit. now rewrite H. Qed.
-Print Assumptions C09_emit_dead_silent.
+(* C09 — Trigger creates exactly one run or nothing. Property theorems only (quantification as in C16.v). *)
+From WF Require Import model.Base model.RunState model.Graph model.EngineBase model.Engine model.Monitors
+  proofs.GraphProofs proofs.EngineTokens proofs.EngineProps.
+
+(* every new run is persisted Initiated, at version 1, at a declared status *)
+Theorem C09_new_run_shape : forall c ops, hist_ok ops -> forall r a, In (TStore None r a) (trace_of c ops) ->
+  r_ver r = 1 /\ r_state r = RSInitiated /\ is_valid (ec_graph c) (r_status r) = true.
+Proof. exact store_new_facts. Qed.
+Print Assumptions C09_new_run_shape.
